@@ -351,6 +351,11 @@ func groupRun(w *World) {
 					return false
 				}
 				if failed(m) {
+					if !rescued && (errors.Is(m.err, context.Canceled) || errors.Is(m.err, context.DeadlineExceeded)) {
+						// this member only reported that its context was cancelled; nobody but the group cancels it, and
+						// the group may do so only once the call is decided - by somebody else's response
+						return false
+					}
 					return eff == 5 && err != nil && errors.Is(err, m.err)
 				}
 				if err != nil || !proto.Equal(resultAt(m.idx), m.msg) {
